@@ -13,6 +13,7 @@ GROUP_FUNCS = {
     'wrapmerge': 'the result shape and fill slices of NiftiWrapper.from_sequence',
     'stack': 'the count checks of get_shape, the thorough check of _chk_order', 'stackadd': 'add_dcm, _chk_congruent, _chk_close, _chk_equal',
     'phoenix': '_parse_phoenix_line',
+    'extract': 'the four default ignore rules of MetaExtractor',
     'cli': 'the naming of output files in dcmstack_cli.main',
     'group': 'the placement step of parse_and_group',
     'filter': 'make_key_regex_filter with its inner function',
